@@ -269,7 +269,22 @@ func c05SignerMods() []c05Mod {
 			}
 		}}
 	}
+	// the CRL response's own issuer-chain header vouches for nothing: a CRL signed by a foreign CA with the intermediate's
+	// exact DN, served with that foreign CA's certificate in the header (self-signed, or issued by the genuine root's name)
+	hdrFake := func(name string, selfSigned bool) c05Mod {
+		return c05Mod{"signer", "pckcrl-signer:foreign-ca-same-dn+header-carries-it(" + name + ")", false, func(s *world.Spec, _ *rand.Rand) {
+			l := s.Cert("inter")
+			sk := 8
+			if !selfSigned {
+				sk = 7
+			}
+			s.Certs = append(s.Certs, &world.CertSpec{Role: "interFake", CN: l.CN, Org: l.Org, Serial: l.Serial, NotBefore: l.NotBefore, NotAfter: l.NotAfter, IsCA: true, Key: 8, SignKey: sk, IssuerOf: map[bool]string{true: "", false: "root"}[selfSigned]})
+			s.PckCrl.SignKey, s.PckCrl.IssuerOf = 8, "interFake"
+			s.PckCrlHdrRoles = []string{"interFake", "root"}
+		}}
+	}
 	return []c05Mod{
+		hdrFake("self-signed", true), hdrFake("signed-by-a-foreign-key", false),
 		pck("other-ca-key(root-signs)", 1, "inter"), pck("foreign-key-same-name", 7, "inter"), pck("right-key-name-of-root", 2, "root"),
 		pck("right-key-name-of-tcb-signer", 2, "signer"), pck("right-key-same-cn-other-org", 2, "interOrg"),
 		root("other-ca-key(inter-signs)", 2, "root"), root("foreign-key-same-name", 7, "root"), root("right-key-name-of-inter", 1, "inter"),
@@ -513,5 +528,7 @@ func c05(r *hx.Run) {
 		o := c05Levels[[]int{0, 0, 0, 0, 0, 1, 2, 3}[rng.IntN(8)]]
 		c05Run(r, w, o[0], o[1], harmless && n <= 1, "dim:combo", fmt.Sprintf("combo-size:%d", n))
 	}
+	// what an earlier call fetched must not stand in for this call's CRLs (or for the missing collateral of a cr-only call)
+	cvPairHistories(r, 0x2205, "C05", 1)
 	r.Note("grid", fmt.Sprintf("%d single faults x %d repetitions x 4 option combinations + %d random combinations", len(grid), reps, combos))
 }
